@@ -42,6 +42,17 @@
 // its unions (OutputLanguages, Input.InterpolateParameters), which is what
 // Pipeline.Run does before anything else.
 //
+// Composition routes. Pass and veneer files are normally reached THROUGH a
+// pipeline, so the path / inject / merge / no-member documents of these two
+// file kinds are additionally loaded through every route the pipeline grammar
+// offers — `transformations.schemas`, `transformations.builders`, and the
+// `transformations` list of every input kind (derived from the grammar:
+// jsonschema, openapi, cue, kindsys_core, kindsys_composable, kind_registry) —
+// by writing a real pipeline next to the document and loading it the way
+// Pipeline.Run does before generating (PipelineFromFile, OutputLanguages,
+// LoadSchemas, ContextForLanguage) against small real inputs of each kind.
+// Only the negative clauses are judged through a route.
+//
 // Oracle clauses (each is a sentence of the property statement):
 //
 //	unknown-key-accepted          "a key that is not part of the configuration
@@ -75,6 +86,7 @@ package main
 
 import (
 	"bytes"
+	"context"
 	"encoding"
 	"encoding/json"
 	"fmt"
@@ -959,7 +971,7 @@ var (
 	loads   atomic.Int64
 )
 
-var scratchRe = regexp.MustCompile(`/var/tmp/verif\.c20\.[A-Za-z0-9]+/[0-9]+\.yaml`)
+var scratchRe = regexp.MustCompile(`/var/tmp/verif\.c20\.[A-Za-z0-9]+/[0-9]+(\.d/rules|\.pipeline)?\.yaml`)
 
 func normErr(s string) string {
 	s = scratchRe.ReplaceAllString(s, "<file>")
@@ -1067,6 +1079,197 @@ func runSchema(fk *fileKind, text string) (accepted bool, class string, msg stri
 		class = "mixed"
 	}
 	return false, class, first, v
+}
+
+/******************************************************************************
+ * Composition routes: the ways a pipeline reaches pass and veneer files
+ *****************************************************************************/
+
+// A schema-transformation or veneer file is rarely handed to its loader
+// directly: `cog generate` reaches it through a pipeline — the pipeline-level
+// `transformations.schemas` / `transformations.builders` lists and the
+// `transformations` list of EVERY input kind. Strict decoding is demanded of
+// the configuration as a whole, so the documents of these two file kinds are
+// also pushed through every such route: a real pipeline file is written next
+// to the document, and the pipeline is loaded the way Pipeline.Run does before
+// generating anything (PipelineFromFile, OutputLanguages, LoadSchemas,
+// ContextForLanguage), against small real inputs of each kind created in the
+// scratch directory. Only the negative clauses are judged through a route (an
+// undeclared key / a no-member entry must make the load fail); valid documents
+// are only counted (a pass that does not apply to the fixture is a value-level
+// matter).
+type viaRoute struct {
+	Name string // e.g. "pipeline inputs[].cue.transformations"
+	FK   string // file kind of the documents that go through it
+	dir  bool   // the pipeline names a directory of files (veneers)
+	mk   func(target string) *OMap
+}
+
+// value-level knowledge: how to write an input of each kind that really loads
+// (package pkg, objects A{f} and B, which is what the templates refer to)
+func inputFixture(kind, fx string) *OMap {
+	switch kind {
+	case "jsonschema":
+		return newOMap("path", filepath.Join(fx, "pkg.json"), "package", "pkg")
+	case "openapi":
+		return newOMap("path", filepath.Join(fx, "openapi.json"), "package", "pkg")
+	case "cue":
+		return newOMap("entrypoint", filepath.Join(fx, "pkg"))
+	case "kindsys_core":
+		return newOMap("entrypoint", filepath.Join(fx, "corekind"), "package", "pkg")
+	case "kindsys_composable":
+		return newOMap("entrypoint", filepath.Join(fx, "composablekind"), "package", "pkg")
+	case "kind_registry":
+		return newOMap("path", filepath.Join(fx, "registry"), "version", "next")
+	}
+	return nil
+}
+
+func makeFixtures() string {
+	fx := filepath.Join(scratch, "fx")
+	write := func(name, content string) {
+		p := filepath.Join(fx, name)
+		if err := os.MkdirAll(filepath.Dir(p), 0o755); err != nil {
+			fatalf("fixtures: %v", err)
+		}
+		if err := os.WriteFile(p, []byte(content), 0o600); err != nil {
+			fatalf("fixtures: %v", err)
+		}
+	}
+	write("pkg.json", `{"$schema":"http://json-schema.org/draft-07/schema#","definitions":{"A":{"type":"object","properties":{"f":{"type":"string"}}},"B":{"type":"object","properties":{"g":{"type":"string"}}}}}`)
+	write("openapi.json", `{"openapi":"3.0.0","info":{"title":"pkg","version":"1.0.0"},"paths":{},"components":{"schemas":{"A":{"type":"object","properties":{"f":{"type":"string"}}},"B":{"type":"object","properties":{"g":{"type":"string"}}}}}}`)
+	write("pkg/pkg.cue", "package pkg\n\nA: {\n\tf: string\n}\n\nB: {\n\tg: string\n}\n")
+	core := "package kind\n\nname: \"A\"\nlineage: schemas: [{\n\tschema: {\n\t\tA: {\n\t\t\tf: string\n\t\t}\n\t\tB: {\n\t\t\tg: string\n\t\t}\n\t}\n}]\n"
+	write("corekind/kind.cue", core)
+	write("composablekind/kind.cue", "package grafanaplugin\n\nschemaInterface: \"PanelCfg\"\nname: \"DemoPanelCfg\"\nlineage: schemas: [{\n\tschema: {\n\t\tOptions: {\n\t\t\tf: string\n\t\t}\n\t}\n}]\n")
+	write("registry/grafana/next/core/a/kind.cue", core)
+	if err := os.MkdirAll(filepath.Join(fx, "registry/grafana/next/composable"), 0o755); err != nil {
+		fatalf("fixtures: %v", err)
+	}
+	return fx
+}
+
+// viaRoutes derives the routes from the pipeline grammar: every member of the
+// input union that has a `transformations` key, plus the two pipeline-level lists.
+func viaRoutes(pipeline *fileKind, fx string) []*viaRoute {
+	var routes []*viaRoute
+	base := func() *OMap {
+		return newOMap("inputs", &List{items: []any{newOMap("jsonschema", inputFixture("jsonschema", fx))}})
+	}
+	if pipeline.root.child("transformations").hasKey("schemas") {
+		routes = append(routes, &viaRoute{Name: "pipeline transformations.schemas", FK: "compiler_passes", mk: func(t string) *OMap {
+			m := base()
+			m.Set("transformations", newOMap("schemas", &List{items: []any{t}}))
+			return m
+		}})
+	}
+	entry := pipeline.root.child("inputs").elem()
+	for _, k := range entry.keys() {
+		k := k
+		if !entry.isMember(k) || !entry.child(k).hasKey("transformations") {
+			continue
+		}
+		if inputFixture(k, fx) == nil {
+			fatalf("input kind %q has a `transformations` list but the harness has no fixture for it (inputFixture)", k)
+		}
+		routes = append(routes, &viaRoute{Name: "pipeline inputs[]." + k + ".transformations", FK: "compiler_passes", mk: func(t string) *OMap {
+			in := inputFixture(k, fx)
+			in.Set("transformations", &List{items: []any{t}})
+			return newOMap("inputs", &List{items: []any{newOMap(k, in)}})
+		}})
+	}
+	if pipeline.root.child("transformations").hasKey("builders") {
+		routes = append(routes, &viaRoute{Name: "pipeline transformations.builders", FK: "veneers", dir: true, mk: func(t string) *OMap {
+			m := base()
+			m.Set("transformations", newOMap("builders", &List{items: []any{t}}))
+			m.Set("output", newOMap("types", true, "builders", true, "languages", &List{items: []any{newOMap("go", newOMap("package_root", "example.com/out"))}}))
+			return m
+		}})
+	}
+	return routes
+}
+
+// loadPipelineClosure: everything Pipeline.Run loads before generating code.
+func loadPipelineClosure(path string) error {
+	pipeline, err := codegen.PipelineFromFile(path)
+	if err != nil {
+		return err
+	}
+	targets, err := pipeline.OutputLanguages()
+	if err != nil {
+		return err
+	}
+	schemas, err := pipeline.LoadSchemas(context.Background())
+	if err != nil {
+		return err
+	}
+	names := make([]string, 0, len(targets))
+	for n := range targets {
+		names = append(names, n)
+	}
+	sort.Strings(names)
+	for _, n := range names {
+		if _, err := pipeline.ContextForLanguage(targets[n], schemas); err != nil {
+			return err
+		}
+	}
+	return nil
+}
+
+type viaCase struct {
+	route     *viaRoute
+	c         *docCase
+	L         bool
+	lclass    string
+	lmsg      string
+	pipelineY string
+}
+
+func runVia(route *viaRoute, doc string) (accepted bool, class, msg, pipelineY string) {
+	n := fileSeq.Add(1)
+	target := filepath.Join(scratch, fmt.Sprintf("%d.yaml", n))
+	cleanup := target
+	if route.dir {
+		cleanup = filepath.Join(scratch, fmt.Sprintf("%d.d", n))
+		if err := os.MkdirAll(cleanup, 0o755); err != nil {
+			fatalf("scratch: %v", err)
+		}
+		target = filepath.Join(cleanup, "rules.yaml")
+	}
+	defer os.RemoveAll(cleanup)
+	if err := os.WriteFile(target, []byte(doc), 0o600); err != nil {
+		fatalf("scratch write: %v", err)
+	}
+	ref := target
+	if route.dir {
+		ref = cleanup
+	}
+	pipelineY = toYAML(route.mk(ref))
+	ppath := filepath.Join(scratch, fmt.Sprintf("%d.pipeline.yaml", n))
+	if err := os.WriteFile(ppath, []byte(pipelineY), 0o600); err != nil {
+		fatalf("scratch write: %v", err)
+	}
+	defer os.Remove(ppath)
+	loads.Add(1)
+	var err error
+	if p := vx.Catch(func() { err = loadPipelineClosure(ppath) }); p != nil {
+		return false, "panic", normErr(fmt.Sprint(p)), pipelineY
+	}
+	if err == nil {
+		return true, "ok", "", pipelineY
+	}
+	msg = normErr(err.Error())
+	switch {
+	case strings.Contains(msg, "not found in type"):
+		class = "unknown-field"
+	case strings.Contains(msg, "cannot unmarshal"), strings.Contains(msg, "cannot construct"):
+		class = "type"
+	case strings.Contains(msg, "empty rule"), strings.Contains(msg, "empty compiler pass"):
+		class = "no-action"
+	default:
+		class = "value"
+	}
+	return false, class, msg, pipelineY
 }
 
 /******************************************************************************
@@ -1577,6 +1780,63 @@ func run(r *vx.Run) int {
 	wg.Wait()
 	pyStatus := pythonCrossCheck(fks, cases)
 
+	// composition routes: the same documents reached through a pipeline
+	fx := makeFixtures()
+	routes := viaRoutes(fks[0], fx)
+	byName := map[string]*fileKind{}
+	for _, fk := range fks {
+		byName[fk.Name] = fk
+	}
+	var viaCases []*viaCase
+	var routesUnavailable []string
+	for _, route := range routes {
+		// sanity: a valid document loads through the route (the fixture works)
+		fk := byName[route.FK]
+		valid, vend := build(fk.paths[0])
+		if len(fk.RuleLists) > 0 {
+			for _, p := range fk.paths {
+				if p.String() == fk.RuleLists[0]+"[]" {
+					valid, vend = build(p)
+				}
+			}
+		}
+		_ = vend
+		if okv, class, msg, py := runVia(route, toYAML(valid)); !okv {
+			if class == "unknown-field" || class == "type" {
+				// the pipeline itself refuses keys the harness took from the
+				// grammar: a key-level defect that the pipeline's own families
+				// report; the route cannot be exercised on this tree
+				routesUnavailable = append(routesUnavailable, route.Name+": "+msg)
+				continue
+			}
+			fatalf("route %q: a valid %s document does not load through it (fixture out of date?): %s\n--- pipeline\n%s--- document\n%s", route.Name, route.FK, msg, py, toYAML(valid))
+		}
+		for _, c := range cases {
+			if c.FK != route.FK || c.Before != "" || c.After != "" {
+				continue
+			}
+			switch c.Family {
+			case "path", "inject", "merge", "noaction", "nullaction", "nullentry":
+				viaCases = append(viaCases, &viaCase{route: route, c: c})
+			}
+		}
+	}
+	vch := make(chan *viaCase)
+	for w := 0; w < runtime.NumCPU(); w++ {
+		wg.Add(1)
+		go func() {
+			defer wg.Done()
+			for v := range vch {
+				v.L, v.lclass, v.lmsg, v.pipelineY = runVia(v.route, v.c.YAML)
+			}
+		}()
+	}
+	for _, v := range viaCases {
+		vch <- v
+	}
+	close(vch)
+	wg.Wait()
+
 	// judge, shortest paths first, deterministically
 	sort.SliceStable(cases, func(i, j int) bool {
 		if cases[i].size != cases[j].size {
@@ -1686,6 +1946,79 @@ func run(r *vx.Run) int {
 			}
 		}
 	}
+	// judgement of the composition routes (same order as the cases)
+	viaStats := map[string]map[string]int{}
+	sort.SliceStable(viaCases, func(i, j int) bool {
+		a, b := viaCases[i], viaCases[j]
+		if a.c.size != b.c.size {
+			return a.c.size < b.c.size
+		}
+		if a.c.ID != b.c.ID {
+			return a.c.ID < b.c.ID
+		}
+		return a.route.Name < b.route.Name
+	})
+	for _, v := range viaCases {
+		c := v.c
+		st := viaStats[v.route.Name]
+		if st == nil {
+			st = map[string]int{}
+			viaStats[v.route.Name] = st
+		}
+		st["executions"]++
+		if v.lclass == "panic" {
+			panics = append(panics, c.ID+" via "+v.route.Name+": "+v.lmsg)
+			continue
+		}
+		clause := ""
+		switch c.Family {
+		case "path":
+			if !ok[c.FK+":"+c.Path].loaderOK {
+				continue
+			}
+			if v.L {
+				st["valid_documents_loaded"]++
+			} else {
+				st["valid_documents_refused("+v.lclass+")"]++
+			}
+			continue
+		case "inject", "merge":
+			if !ok[c.FK+":"+c.Path].loaderOK || !c.LoaderClosed {
+				continue
+			}
+			clause = "unknown-key-accepted"
+		default:
+			blocked := false
+			for _, need := range c.needOK {
+				if !ok[c.FK+":"+need].loaderOK {
+					blocked = true
+				}
+			}
+			if blocked {
+				continue
+			}
+			clause = map[string]string{"noaction": "no-action-entry-accepted", "nullaction": "null-action-entry-accepted", "nullentry": "null-entry-silently-dropped"}[c.Family]
+		}
+		st["judged"]++
+		clauseReached[clause+" via route"]++
+		if !v.L {
+			st["rejected("+v.lclass+")"]++
+			continue
+		}
+		what := fmt.Sprintf("%s file reached through %s: undeclared key %q at %s is silently accepted when the pipeline is loaded (the same file is rejected=%v by the %s loader alone)", c.FK, v.route.Name, c.Key, c.Path, !c.L, c.FK)
+		if c.Family != "inject" && c.Family != "merge" {
+			what = fmt.Sprintf("%s file reached through %s: entry %s names no member of the union %s (%s) but the pipeline loads (the same file is rejected=%v by the %s loader alone)", c.FK, v.route.Name, c.Key, c.Path, c.ID[strings.Index(c.ID, " = ")+3:], !c.L, c.FK)
+		}
+		kind := clause + " @ " + c.FK + " via " + v.route.Name
+		failingPerKind[kind]++
+		r.Fail(vx.Failure{Kind: kind, Witness: c.ID + " via " + v.route.Name, Size: c.size, What: what,
+			Detail: map[string]any{"case": c, "clause": clause, "via": v.route.Name}})
+	}
+
+	if len(routesUnavailable) > 0 && r.NumFailures() == 0 {
+		fatalf("composition route(s) cannot be exercised although no key-level failure explains it (fixtures out of date?):\n%s", strings.Join(routesUnavailable, "\n"))
+	}
+
 	if len(preconditions) > 0 {
 		sort.Strings(preconditions)
 		n := len(preconditions)
@@ -1815,6 +2148,8 @@ func run(r *vx.Run) int {
 		"loader_outcomes":                     lhist,
 		"schema_outcomes":                     shist,
 		"oracle_clause_reached":               clauseReached,
+		"composition_routes":                  viaStats,
+		"composition_routes_unavailable":      routesUnavailable,
 		"blocked_by_failing_prefix_loader":    blockedLoader,
 		"blocked_by_failing_prefix_schema":    blockedSchema,
 		"value_level_blocked_expected":        valueBlockedExpected,
@@ -1832,6 +2167,7 @@ func run(r *vx.Run) int {
 		"only key-level acceptance is compared; value-level loader checks (reference formats, missing selector, missing package) are satisfied by the templates and never counted as key rejections",
 		"PipelineFromFile only decodes: files and directories named by a pipeline are not opened at load time, so no existence checks are involved",
 		"rule entries are the items of passes/builders/options and of the pipeline's inputs/output.languages; loading a pipeline includes resolving these two unions (OutputLanguages, Input.InterpolateParameters: no I/O)",
+		"pass/veneer documents are also loaded through every pipeline route (transformations.schemas, transformations.builders, inputs[].<every kind>.transformations) with real fixture inputs (package pkg, objects A{f}, B); through a route only 'must be rejected' clauses are judged, valid documents are counted",
 		"no-member entries are enumerated alone, doubled, and before/after/between a well-formed sibling of every member kind; undeclared keys also in the 2nd item of every list on the path and in either file of a batch of two",
 		"one witness per failure kind (kind = clause @ file kind:route:definition); total failing cases per kind are in failing_cases_per_kind",
 	})
@@ -1843,6 +2179,7 @@ func replay(r *vx.Run, fks []*fileKind) int {
 	var d struct {
 		Case   docCase `json:"case"`
 		Clause string  `json:"clause"`
+		Via    string  `json:"via"`
 	}
 	if err := json.Unmarshal(detail, &d); err != nil {
 		fatalf("replay detail: %v", err)
@@ -1858,6 +2195,23 @@ func replay(r *vx.Run, fks []*fileKind) int {
 		fatalf("replay: unknown file kind %q", c.FK)
 	}
 	fmt.Printf("replaying %s\n  kind: %s\n--- document (%s)\n%s", witness, kind, c.FK, c.YAML)
+	if d.Via != "" {
+		fks[0].init(r.Repo, 1)
+		for _, route := range viaRoutes(fks[0], makeFixtures()) {
+			if route.Name != d.Via {
+				continue
+			}
+			accepted, class, msg, py := runVia(route, c.YAML)
+			fmt.Printf("--- pipeline (%s)\n%s--- loading the pipeline (PipelineFromFile, OutputLanguages, LoadSchemas, ContextForLanguage): accepted=%v class=%s %s\n", route.Name, py, accepted, class, msg)
+			if accepted {
+				fmt.Printf("  %s: the document is accepted through this route\nVIOLATION property=C20 replay=%s\n", d.Clause, r.Replay)
+				return 1
+			}
+			fmt.Println("replay: the recorded clause does not fail on this tree")
+			return 0
+		}
+		fatalf("replay: route %q does not exist on this tree", d.Via)
+	}
 	execute(c)
 	fmt.Printf("--- loader: accepted=%v class=%s %s\n--- schema: accepted=%v class=%s %s\n", c.L, c.lclass, c.lmsg, c.S, c.sclass, c.smsg)
 	var vs []verdict
